@@ -3,7 +3,7 @@ import vlib, mirrorcheck
 
 META = {
     "level": "model_checking",
-    "text": "Every store write of Mirror.tla is a separate crash point: a step may die after any prefix of its writes, and Restart is NewKernel's initialisation from the store variables; TLC checks that restart never fails (C10_RestartOK) and the chain/position invariants of C04 across crashes. The same crash points are replayed on a real Mirror: the recording stores are truncated to the first k writes of the interrupted step, a new Mirror is started on them, and the harness checks on the real objects that it starts, that positions are not behind what was durable, that every vote and proposed header persisted for the resumed rounds is present again (and, by C05's oracle, still verifies), and it continues with the rest of the behaviour.",
+    "text": "Every store write of Mirror.tla is a separate crash point: a step may die after any prefix of its writes, and Restart is NewKernel's initialisation from the store variables; TLC checks that restart never fails (C10_RestartOK) and the chain/position invariants of C04 across crashes. The same crash points are replayed on a real Mirror: the recording stores are truncated to the first k writes of the interrupted step, a new Mirror is started on them, and the harness checks on the real objects that it starts, that positions are not behind what was durable, that every vote and proposed header persisted for the resumed rounds is present again (and, by C05's oracle, still verifies), and it continues with the rest of the behaviour. The state machine half of a restart is replayed too (StateMachine.tla with a crash after every macro step, edge cover + simulation): predicate ResumesAtDurablePosition; at every crash point of the mirror the durable committed chain must cover the durably recorded position (DurableChainCoversPosition).",
     "note": "Mirror/stores only; the state machine's restart (action store, finalization store) is exercised by C02. 'Same result as the crash-free run' is checked through state equality with the spec (whose crash-free and crashed runs are both explored), not by a twin execution. Bounded as C01.",
     "technique": "TLA+ spec (Mirror.tla) with a crash point after every store write + TLC exhaustive bounded check + crash/restart replay on the real Mirror over truncatable recording stores",
 }
